@@ -8,13 +8,14 @@ import prog
 import surface
 import oracles
 import pipecmp
-from common import DRIVER, RVH_DEBUG, hx, proof_stage, run_lines, run_lines_isolated
+from common import DRIVER, RVH_DEBUG, hx, proof_stage, run_lines, run_lines_isolated, unhx
 from pipeline import correspondence, pipe_req
 from pipeline import field as pf
 
 THEOREMS = ["Rva.adv_inv", "Rva.lexNext_ok", "Rva.lexAll_positions", "Rva.lexString_positions",
             "Rva.curInv_init", "Rva.skipWs_pres", "Rva.accString_pres",
-            "Rva.parseNode_tracked", "Rva.parseNode_endsRaw", "Rva.rawAfter_range", "Rva.parseStep_node_range"]
+            "Rva.parseNode_tracked", "Rva.parseNode_endsRaw", "Rva.rawAfter_range", "Rva.parseStep_node_range",
+            "Rva.rewireReturn_keeps_locations"]
 
 MNEMONICS = set(asm.ALL_MNEMONICS) | {"return"}
 
@@ -38,7 +39,7 @@ def programs(rng, n):
 
 def run(res, tier, seed):
     rng = random.Random(seed)
-    proof_ok = proof_stage(res, "Rva.Proofs.C09b", THEOREMS, extra_modules=["Rva.Proofs.C09", "Rva.Proofs.C07b"])
+    proof_ok = proof_stage(res, "Rva.Proofs.C09b", THEOREMS, extra_modules=["Rva.Proofs.C09", "Rva.Proofs.C07b", "Rva.Proofs.C03b"])
     n = 400 if tier == "quick" else 6000
     srcs = programs(rng, n)
     # the token "x0" on the first line, columns 4.. : the F-11 witness family
@@ -48,6 +49,9 @@ def run(res, tier, seed):
              "j L # first\nL:\n    ret\n", "j  L\nL: j L\n", "b\tL\nL:\n", "a:\n    j a\n", "j a\na:", "x:j x\n"]
     srcs += ["addi x0,x0,1\n", "\naddi x0,x0,1", "\n\n\tli a7, 10 # c\n ecall", "a:b: lw a0, 4(sp)\nsw a0, (sp)",
              "li a0, 'x'\n.word 1, 2\n", "add t0, t1\nli a0, 1\n", "lw a0, 4(sp)"]
+    # memory operands without a base register, followed by a comment / the end of the line / nothing
+    srcs += ["main:\n    lw   t1, 64      # table base\n    lw t3, 0x40\n    lb a0, 4 # c\n    sw a0, 8\n    sw a1, 12 # x\n    ret\n",
+             "lw a0, 4", "lw a0, 4\n", "lhu a0, 4 # c", "sw a0, 4\nnop\n", "lw a0, 4\n\n  nop", "jalr t0 # c\nnop\n", "jalr t0, 4 # c\n"]
     first = None
     stats = {"tokens": 0, "nodes": 0, "perr": 0, "lint": 0, "run": 0}
     # --- lexer stage: impl vs model, and the position oracle on every token
@@ -168,6 +172,33 @@ def run(res, tier, seed):
                 first = {"what": f"pretty output, diagnostic at line {ln} columns {c1}-{c2} ({want!r}): the markers "
                                  f"stand under {under!r} of the excerpt {shown!r} (line number shown: {num})",
                          "replay_cmd": f"{RVA} lint --no-color {path}", "stage": "pretty"}
+    # --- a diagnostic about an instruction stands on that instruction, not on a look-alike: functions
+    # with two returns of which exactly one is reached with a displaced stack pointer (whichever return
+    # the markup makes the exit, F-28, the stack diagnostic belongs on the displaced one)
+    tw = []
+    for k in range(6 if tier == "quick" else 40):
+        # the stack pass reports the first node (in file order) that is entered with sp above its entry
+        # value: here that is the return at L1, written before the code that displaces sp
+        d = rng.choice([16, 8, 32])
+        same_line = rng.random() < 0.4
+        more = ["    addi a0, a0, 1"] * rng.randrange(0, 3)
+        L = ["main:", "    jal f", "    li a7, 10", "    ecall", "f:", "    j L2"] + \
+            (["L1: ret"] if same_line else ["L1:", "    ret"]) + ["L2:"] + more + \
+            [f"    addi sp, sp, {d}", "    beqz a0, L1", f"    addi sp, sp, -{d}", "    ret"]
+        tw.append(("\n".join(L) + "\n", 6 if same_line else 7))
+    tout = run_lines_isolated(RVH_DEBUG, [pipe_req("run", [("m.s", t)]) for t, _ in tw for _ in range(4)], chunk=60)
+    stats["two_return_locations"] = 0
+    for j, (t, bad_line) in enumerate(tw):
+        for blk in tout[4 * j:4 * j + 4]:
+            for l in blk:
+                if l.startswith("RUN ") and "737461636b" in (pf(l, "title") or "").lower():      # "stack"
+                    stats["two_return_locations"] += 1
+                    at = oracles.parse_loc(pf(l, "at"))
+                    if at and at["sl"] != bad_line and first is None:
+                        first = {"what": f"the stack diagnostic {unhx(pf(l, 'title'))!r} about the return on line "
+                                         f"{bad_line + 1} (the one reached with a displaced sp) is reported on line {at['sl'] + 1}",
+                                 "source": t, "stage": "two returns",
+                                 "replay_cmd": "echo '%s' | %s" % (pipe_req("run", [("m.s", t)]), RVH_DEBUG)}
     res.cov["evaluations"] = len(srcs) + len(multi)
     res.cov["distinct_nontrivial"] = len(set(srcs)) + len(multi)
     res.cov["rule"] = ("generated programs and statement soups rendered with random layout (leading blank "
